@@ -183,6 +183,20 @@ def run_tlc(module, cfg_text, spec_dirs, workers=None, simulate=None, depth=None
             shutil.rmtree(scratch, ignore_errors=True)
 
 
+def wrapper(module, defs, extends_extra=""):
+    """Wrapper module so that constants can be arbitrary TLA+ expressions.
+
+    defs: {ConstantName: tla_expression}.  Returns (name, text, cfg_constant_lines)."""
+    name = "MC_" + module
+    body = [f"---- MODULE {name} ----", f"EXTENDS {module}{extends_extra}"]
+    cfg = []
+    for k, v in defs.items():
+        body.append(f"MCdef_{k} == {v}")
+        cfg.append(f"  {k} <- MCdef_{k}")
+    body.append("====")
+    return name, "\n".join(body) + "\n", "\n".join(cfg)
+
+
 def tla_set(items):
     return "{" + ", ".join(items) + "}"
 
